@@ -23,6 +23,9 @@ type C11Case struct {
 	Locals []string      `json:"locals,omitempty"` // fixed table: its local symbols
 	Vals   []model.Value `json:"vals"`
 	Picks  []int         `json:"picks,omitempty"`
+	// FinishAfter: for the Writer entry points, Finish is also called after the
+	// values with these indexes (several datagrams from one writer).
+	FinishAfter []int `json:"finish_after,omitempty"`
 }
 
 var c11Entries = []string{"NewBinaryWriter(ssts)", "NewBinaryWriterLST", "MarshalBinary(ssts)", "MarshalBinaryLST"}
@@ -162,7 +165,17 @@ func runC11(c C11Case) string {
 				w = ion.NewBinaryWriterLST(&buf, ion.NewLocalSymbolTable(ionSSTs(c.SSTs), c.Locals))
 			}
 			p := pickerOf(c.Picks)
-			calls = append(flattenCalls(c.Vals, func(n int) int { return p(n) }), CallJ{Op: "finish"})
+			fin := map[int]bool{}
+			for _, i := range c.FinishAfter {
+				fin[i] = true
+			}
+			for i := range c.Vals {
+				calls = append(calls, flattenCalls(c.Vals[i:i+1], func(n int) int { return p(n) })...)
+				if fin[i] && i < len(c.Vals)-1 {
+					calls = append(calls, CallJ{Op: "finish"})
+				}
+			}
+			calls = append(calls, CallJ{Op: "finish"})
 			for _, call := range calls {
 				callErrs = append(callErrs, doCall(w, call))
 			}
@@ -377,7 +390,7 @@ func runC11(c C11Case) string {
 				used[u.Text.Text] = true
 			}
 		}
-		for _, d := range res.Decls {
+		for _, d := range res.Decls[max(0, len(res.Decls)-1):] {
 			for _, s := range d.Symbols {
 				if s.Known && !used[s.Text] {
 					return fmt.Sprintf("local symbol %q is defined but never used", s.Text) + desc(out)
@@ -457,6 +470,17 @@ func genC11(t *rapid.T) C11Case {
 		c.Vals = append(c.Vals, v)
 	}
 	c.Vals = gen.SanitizeTop(c.Vals)
+	if !marshal && gen.Chance(t, 40) {
+		for i := range c.Vals {
+			if gen.Chance(t, 40) {
+				c.FinishAfter = append(c.FinishAfter, i)
+			}
+		}
+	}
+	if c.Entry == 0 && gen.Chance(t, 25) {
+		// the empty symbol text, followed by text that is new to the table
+		c.Vals = append(c.Vals, model.ListV(model.SymV(model.S("")), model.SymV(model.S(gen.Pick(t, []string{"afterEmpty", "zz2", "q9"})))))
+	}
 	if marshal {
 		for i := range c.Vals {
 			c.Vals[i].Ann = nil
